@@ -1486,6 +1486,23 @@ func cmdC03Deep(a cmdArgs) {
 		results = append(results, res)
 	}
 	st.Extra["deep"] = results
+	// deep nesting of SOURCE (parser / compiler recursion) kills the host: one failing-input record for all
+	// front-end families (the script-recursion family is the running script's own resource use)
+	var front []c03DeepResult
+	detail := ""
+	for _, r := range results {
+		if r.Family != "script-recursion" && r.Dies > 0 {
+			front = append(front, r)
+			detail += fmt.Sprintf("%s: dies at depth %d (%d bytes of source), survives %d; ", r.Family, r.Dies, r.SourceBytes, r.Survives)
+		}
+	}
+	if len(front) > 0 {
+		st.mismatchG("deep-nesting", map[string]any{
+			"kind": "deep-nesting", "entry": "Eval / parse (in a child process)", "stage": "parse / compile recursion",
+			"panic": front[0].Fatal, "go_max_stack": label, "input": c03Describe(c03DeepInput(front[0].Family, front[0].Dies)),
+			"detail": detail, "families": front,
+		})
+	}
 	// terminating scripts that exhaust memory: Go's "out of memory" is a fatal error, not a panic
 	var bombs []map[string]string
 	for _, sc := range []string{
@@ -1509,7 +1526,7 @@ func cmdC03Deep(a cmdArgs) {
 // ---- c03-corr: observations for Model/Host.v ---------------------------------------------------------------------------------
 
 var c03EvalPrefixes = []string{"error in tokenize: ", "error in parse: ", "error in loadImports: ", "error in compile (imports): ", "error in run (imports): ", "error in compile: ", "error in run: "}
-var c03LoadPrefixes = []string{"error in load: ", "error in compile: ", "error in run: ", "unexpected returns: "}
+var c03LoadPrefixes = []string{"error in load: ", "error in compile: ", "error in run: "}
 
 func c03SiteTag(site string) string {
 	switch {
